@@ -326,8 +326,17 @@ class Inliner:
         stored = _stored_names(fn.body)
         mapping = {}
         prologue = []
+        uses = {}
+        for st0 in fn.body:
+            for x in ast.walk(st0):
+                if isinstance(x, ast.Name) and isinstance(x.ctx, ast.Load):
+                    uses[x.id] = uses.get(x.id, 0) + 1
+        single_expr = len([s0 for s0 in fn.body if not (isinstance(s0, ast.Expr) and isinstance(s0.value, ast.Constant))]) == 1
         for p, a in values.items():
             simple = isinstance(a, (ast.Name, ast.Constant)) or (isinstance(a, ast.Attribute) and _is_chain(a))
+            # an argument used at most once by a one-statement helper can take the parameter's place without being evaluated twice
+            if not simple and single_expr and uses.get(p, 0) <= 1 and p not in stored:
+                simple = True
             if simple and p not in stored:
                 mapping[p] = a
             else:
@@ -721,6 +730,34 @@ class Inliner:
                 if isinstance(node, (ast.FunctionDef, ast.AsyncFunctionDef)):
                     cls = node._parent if isinstance(getattr(node, "_parent", None), ast.ClassDef) else _enclosing_class(node)
                     node.body = self.expand_block(node.body, m, cls, 0, frozenset({qualname_of(node)})) or [_pass(node)]
+            relink(m)
+        # expression helpers called from lambda bodies and module-level expressions (operator tables)
+        for m in self.prog.modules.values():
+            holders = [n for n in ast.walk(m.tree) if isinstance(n, ast.Lambda)]
+            for lam in holders:
+                for _ in range(6):
+                    done = True
+                    for n in list(ast.walk(lam.body)):
+                        if not isinstance(n, ast.Call):
+                            continue
+                        h = self.helper_for(n, m, _enclosing_class(lam))
+                        if h is None or _contains(h[0].body, (ast.Yield, ast.YieldFrom)):
+                            continue
+                        b = self.bind(h[0], h[1], h[2], n)
+                        if b is None or b[1]:
+                            continue
+                        ef = _as_expression(self.instantiate(h[0], b[0]))
+                        if ef is None:
+                            continue
+                        if n is lam.body:
+                            lam.body = ef
+                        elif not _replace_node(lam.body, n, ef):
+                            continue
+                        self.inlined_calls.append(f"{qualname_of(h[0])} <- lambda {ast.unparse(n)[:50]}")
+                        done = False
+                        break
+                    if done:
+                        break
             relink(m)
         # helpers that became fully transparent: inlined at least once and no call to them is left anywhere in the package
         inlined = {x.split(" <- ")[0] for x in self.inlined_calls}
